@@ -4,12 +4,14 @@ import (
 	"crypto/sha256"
 	"bytes"
 	"context"
+	"encoding/json"
 	"errors"
 	"fmt"
 	"github.com/transparency-dev/witness/internal/persistence"
 	"github.com/transparency-dev/witness/verifmc/lspwrap"
 	"net/url"
 	"os"
+	"os/exec"
 	"strings"
 	"sync"
 	"sync/atomic"
@@ -597,6 +599,10 @@ func c13(tier string) int {
 	// storage calls; what the in-process adapter tells the feeder must agree
 	// with what the witness holds once it is quiescent.
 	ctxLeg(run, "C13")
+	// Through omniwitness.Main (the adapter as Main builds it, WitnessVerifier
+	// set): a store whose checkpoints an earlier key set of the witness
+	// cosigned - the feeder must still learn the witness's size from it.
+	c13ViaMain(run)
 	run.Set("exhaustive", true)
 	for _, k := range []string{"honest ok", "honest error", "fork error", "wrong-key error"} {
 		if run.HistGet("cycle_outcomes", k) == 0 {
@@ -679,4 +685,24 @@ func c13HugeSizes(run *ev.Run, u *uni.U, la wh.LogCfg) {
 	}
 	run.Set("huge_size_pairs", n)
 	run.Add("evaluations", n)
+}
+
+// c13ViaMain runs one C14 worker job (serverless feeder, two growth schedules)
+// on a store that holds each log's first checkpoint cosigned with the legacy
+// key only; its findings are C13's when the feeder never gets past them.
+func c13ViaMain(run *ev.Run) {
+	self, _ := os.Executable()
+	dir, _ := os.MkdirTemp(c06Scratch(), "c13main-")
+	defer os.RemoveAll(dir)
+	spec := c14Spec{Mode: "running", Storage: "mem", Feeder: "serverless", Schedules: [][]int{{2, 5}, {256, 257, 700}}, Rekeyed: true, Scratch: dir}
+	sj, _ := json.Marshal(spec)
+	out, err := exec.Command(self, "worker", "c14", string(sj)).Output()
+	var r c14Result
+	if err != nil || json.Unmarshal(lastLine(out), &r) != nil || r.Err != "" {
+		ev.Internal("C13 via Main: worker failed: %v %s: %s", err, r.Err, tail(out))
+	}
+	for _, p := range r.Problems {
+		run.Report("via-main rekeyed-store "+p.Signature, "omniwitness.Main over a store whose checkpoints carry only the witness's legacy signature (an earlier key set), witness verifier = cosignature/v1: "+p.What, map[string]any{"kind": "omniwitness-main", "feeder": "serverless", "rekeyed": true})
+	}
+	run.Add("via_main_checks", int64(r.Checks))
 }
